@@ -29,6 +29,7 @@ func TestWorker(t *testing.T) {
 		"C11/ports":    runPorts,
 		"C12/ohp":      runOHP,
 		"C13/epic":     runEPIC,
+		"C15/bfdlinks": runBFDLinks,
 		"C17/config":   runConfig,
 		"C22/paths":    runPaths,
 		"C28/combine":  runCombine,
